@@ -103,9 +103,24 @@ func zz17ValidCommit() []byte {
 	return buf.Bytes()
 }
 
+// zz17Store holds one value; the Get* functions of the package read the damaged bytes
+// through it, as they would read a damaged object from the repository.
+type zz17Store struct{ v []byte }
+
+func (s *zz17Store) Get(k []byte) ([]byte, error)               { return s.v, nil }
+func (s *zz17Store) Set(k, v []byte) error                      { return nil }
+func (s *zz17Store) Delete(k []byte) error                      { return nil }
+func (s *zz17Store) Exist(k []byte) bool                        { return true }
+func (s *zz17Store) Filter(p []byte) (map[string][]byte, error) { return nil, nil }
+func (s *zz17Store) FilterKey(p []byte) ([][]byte, error)       { return nil, nil }
+func (s *zz17Store) Clear(p []byte) error                       { return nil }
+func (s *zz17Store) Close() error                               { return nil }
+
 func Harness_C17_ReadCommit() {
 	b := zz17Mutate(zz17ValidCommit())
 	_, _, _ = ReadCommitFrom(bytes.NewReader(b))
+	// the same bytes read back from a store
+	_, _ = GetCommit(&zz17Store{v: b}, bytes.Repeat([]byte{1}, 16))
 	zzverif.Reach("end")
 }
 
@@ -127,6 +142,7 @@ func zz17ValidTable() []byte {
 func Harness_C17_ReadTable() {
 	b := zz17Mutate(zz17ValidTable())
 	_, _, _ = ReadTableFrom(bytes.NewReader(b))
+	_, _ = GetTable(&zz17Store{v: b}, bytes.Repeat([]byte{1}, 16))
 	zzverif.Reach("end")
 }
 
@@ -149,6 +165,7 @@ func Harness_C17_ReadProfile() {
 	b := zz17Mutate(zz17ValidProfile())
 	p := &TableProfile{}
 	_, _ = p.ReadFrom(bytes.NewReader(b))
+	_, _ = GetTableProfile(&zz17Store{v: b}, bytes.Repeat([]byte{1}, 16))
 	zzverif.Reach("end")
 }
 
